@@ -120,6 +120,10 @@ stubs_c12.install()
 stubs_c12.fix_relib()
 STATS["stub_comparisons_with_the_real_objects"] = stubs_c12.validate()
 stubs_c12.warm_symbolic_tables()
+# the regular expressions ombott applies to body text / Content-Type, as compiled in the tree under test, each with its
+# step-counting interpreter (used by the `hang/*` families only; every other query runs CrossHair's regex model)
+REGEX_SITES = stubs_c12.budget_patterns()
+STATS["counting_regex_interpreter_comparisons_with_re"] = stubs_c12.validate_budget_patterns(REGEX_SITES)
 
 CRLF = b"\r\n"
 MP_CTYPE = "multipart/form-data; boundary=%s"
@@ -230,9 +234,12 @@ class Outcome:
         self.calls, self.errors, self.seen, self.out, self.escaped = [], [], [], None, None
 
 
-def serve(kind, stream, t, env, json_model=False):
-    """One POST through a fresh application whose handler reads request.<kind>."""
+def serve(kind, stream, t, env, json_model=False, counted=False):
+    """One POST through a fresh application whose handler reads request.<kind>.  `counted`: the regular expressions
+    of the body path are run by their step-counting interpreters (see REGEX_SITES)."""
     body_mixin.json_mod = stubs_c12.PyJson if json_model else json
+    stubs_c12.use_budget_patterns(REGEX_SITES, counted)
+    del stubs_c12.HANGS[:]
     app = ombott.Ombott({"max_memfile_size": t})
     res = Outcome()
 
@@ -264,6 +271,8 @@ def serve(kind, stream, t, env, json_model=False):
 
 def judge_status(res):
     """O1; returns (failure text | None, status class '2'/'4')"""
+    if stubs_c12.HANGS:          # whatever was answered afterwards: a regular expression did not finish
+        return "hang: " + stubs_c12.HANGS[0], None
     if res.escaped is not None:
         return "exception escaped Ombott.__call__: %r" % (res.escaped,), None
     if len(res.calls) != 1:
@@ -668,6 +677,122 @@ def make_form_any(n, ctype, framing, t):
     return checked(q)
 
 
+# ================================================================ no hang: long header lines / content types
+# "never a hang": every regular expression on the body path (REGEX_SITES) is run by a backtracking interpreter of its
+# current parse tree that counts steps; more than 50*L*L+1000 steps on a text of L characters is the failure (O1h).
+# Quadratic time is tolerated, anything steeper is over the budget from ~40 characters on.  What is long here is a
+# `pump`: a unit of 1-2 characters repeated up to a run length picked by the solver from a list; the characters at the
+# joints of the line are fully symbolic bytes.
+HANG_KEYS = {
+    # tag: (header lines in front, start of the line that carries the parameter, key, handler)
+    "name": ([], b"Content-Disposition: form-data; ", b"name", "forms"),
+    "filename": ([], b'Content-Disposition: form-data; name="f"; ', b"filename", "files"),
+    "other": ([], b'Content-Disposition: form-data; name="f"; ', b"x", "forms"),
+    "ctype": ([b'Content-Disposition: form-data; name="f"; filename="a"'], b"Content-Type: t/p; ", b"charset", "files"),
+}
+HANG_SHAPES = {
+    # tag: (template of the parameter: S key, P pump, ? symbolic byte; what)
+    "q-open": (b'S="?P', "opening quote, a free byte, the pump, no closing quote"),
+    "q-last": (b'S="P?', "opening quote, the pump, a free byte, no closing quote"),
+    "q-close": (b'S="P"?; z=1', "quoted pump, a free byte after the closing quote, another parameter"),
+    "q-close-last": (b'S="P"?', "quoted pump, a free byte after the closing quote ends the line"),
+    "q-both": (b'S="?P"?; z=1', "quoted: a free byte, the pump; a free byte after the closing quote, another parameter"),
+    "q-inner": (b'S="?P?"; z=1', "quoted: a free byte, the pump, a free byte; another parameter"),
+    "bare": (b"S=P?; z=1", "unquoted pump, a free byte, another parameter"),
+    "bare-last": (b"S=?P?", "unquoted: a free byte, the pump, a free byte ends the line"),
+    "key": (b"P?=1; z=1", "the pump as parameter key, a free byte before the `=`"),
+}
+
+
+def hang_segments(template, key, pump):
+    """[(bytes, is_symbolic placeholder)] of a parameter template"""
+    out = []
+    for i in range(len(template)):
+        c = template[i:i + 1]
+        out.append((None, True) if c == b"?" else (key if c == b"S" else pump if c == b"P" else c, False))
+    return out
+
+
+def make_hang_field(keytag, shape, units, lengths, framing, whole):
+    """a part whose header line `keytag` carries the parameter `shape`; pump unit and run length picked by the solver"""
+    front, start, key, kind = HANG_KEYS[keytag]
+    template = HANG_SHAPES[shape][0]
+    k = template.count(b"?")
+    head = b"--b\r\n" + b"".join(line + CRLF for line in front)
+    tail = CRLF + CRLF + b"xy" + CRLF + b"--b--" + CRLF
+
+    def q(h: bytes, u: int, n: int):
+        assume(len(h) == k and 0 <= u < len(units) and 0 <= n < len(lengths))
+        unit, length = units[u], lengths[n]
+        pump = (unit * length)[:length]
+        segs, j = [(head + start, False)], 0
+        for data, symbolic in hang_segments(template, key, pump):
+            if symbolic:
+                segs.append((h[j:j + 1], True))
+                j += 1
+            else:
+                segs.append((data, False))
+        sent = Sent.of(segs + [(tail, False)])
+        cut1, cut2 = len(head) + len(start) - 2, sent.n - len(tail) + 1
+        pieces = [sent.whole()] if whole else [sent.slice(0, cut1), sent.slice(cut1, cut2), sent.slice(cut2, sent.n)]
+        stream, env = framed(pieces, sent, framing, MP_CTYPE % "b")
+        res = serve(kind, stream, 2048, env, counted=True)
+        fail = judge(kind, res, sent, b"b")
+        return fail, observed(res)
+    return checked(q)
+
+
+HANG_CTYPES = {
+    # tag: template of the Content-Type: P pump, ? free character (U+0001..U+00FF), C one of CTYPE_MARKS picked by the solver
+    # (a free character inside the boundary value would be hashed by the multipart scanner: one path per value)
+    "before-key": "multipart/P?boundary=b",
+    "no-key": "multipart/P?boundary",
+    "value-end": "multipart/x; boundary=PC",
+    "after-value": "multipart/x; boundary=bPC; q=1",
+    "both": "multipart/P?boundary=PC",
+    "quoted": 'multipart/x; boundary="PCP',
+}
+CTYPE_MARKS = [";", '"', "\n", " ", "=", "\\", "a", "\r", "\t", ","]
+
+
+def make_hang_ctype(tag, units, lengths, kind):
+    """long Content-Type values: the boundary parser of BodyMixin._body (and what else reads the content type)"""
+    body = b""        # nothing to scan with the boundary: that is the subject of mp/ctype and of C07
+    template = HANG_CTYPES[tag]
+    free, marks = "?" in template, "C" in template
+
+    def q(o: int, m: int, u: int, n: int):
+        assume(0 <= u < len(units) and 0 <= n < len(lengths))
+        assume((1 <= o <= 255 if free else o == 0) and (0 <= m < len(CTYPE_MARKS) if marks else m == 0))
+        unit, length = units[u], lengths[n]
+        pump = (unit * length)[:length]
+        ctype = ""
+        for c in template:
+            ctype = ctype + (chr(o) if c == "?" else CTYPE_MARKS[m] if c == "C" else pump if c == "P" else c)
+        sent = Sent(body, b"", b"")
+        stream = stubs_c12.PieceStream([body])
+        res = serve(kind, stream, 256, {"CONTENT_TYPE": ctype, "CONTENT_LENGTH": str(len(body))}, counted=True)
+        fail = judge("json", res, sent, b"")            # status and termination; which boundary comes out is C07's subject
+        return fail, observed(res)
+    return checked(q)
+
+
+def make_hang_block(units, lengths, kind, framing):
+    """a header block of many lines: name line, `count` filler lines `X: pump`, then two free bytes where the blank
+    line should start - the header-block scanner (end_headers_patt) and the line splitter on long blocks"""
+    def q(h: bytes, u: int, n: int):
+        assume(len(h) == 2 and 0 <= u < len(units) and 0 <= n < len(lengths))
+        unit, length = units[u], lengths[n]
+        pump = (unit * length)[:length]
+        pre = b"--b\r\n" + G.H(b"f", b"a" if kind == "files" else None)[0] + CRLF + b"X: " + pump
+        post = CRLF + b"xy" + CRLF + b"--b--" + CRLF
+        sent = Sent(pre, h, post)
+        stream, env = framed(sent.pieces(3, 3), sent, framing, MP_CTYPE % "b")
+        res = serve(kind, stream, 2048, env, counted=True)
+        return judge(kind, res, sent, b"b"), observed(res)
+    return checked(q)
+
+
 # ================================================================ query list
 E4, OK2, BOTH = ["status-4xx"], ["status-2xx", "delivered"], ["status-4xx", "status-2xx", "delivered"]
 # (skeleton, site, handler, labels that must be reachable, CPU seconds measured on the unchanged tree)
@@ -693,6 +818,17 @@ HOLES_THOROUGH = [
     ("ctype", "line-break", "files", BOTH, 70), ("text", "preamble", "forms", E4, 46), ("file", "name-val", "files", BOTH, 40),
     ("text", "name-val", "forms", BOTH, 25), ("text", "hvalue-2", "forms", E4, 16),
 ]
+# (line, shape, pump units, run lengths, framing, one read, CPU seconds measured on the unchanged tree)
+PLAIN, MARKS = [b"a"], [b"=", b'"', b";", b"\\", b" "]
+PAIRS = [b"a=", b'="', b'\\"', b"a;", b'""', b'a"', b"; ", b"a\\"]
+HANG_QUICK = [
+    ("name", "q-open", PLAIN, (64, 150), "cl", False, 10),
+]
+HANG_THOROUGH = []
+HANG_CTYPE_QUICK = [(["a"], (60,), "forms", 10)]
+HANG_CTYPE_THOROUGH = []
+HANG_BLOCK_QUICK = [([b"a"], (60,), "forms", "cl", 10)]
+HANG_BLOCK_THOROUGH = []
 JSON_QUICK = ["obj-open", "arr", "num", "str", "nul", "member-value", "member-key", "any2", "escape", "nested", "two-values"]
 
 
@@ -784,6 +920,50 @@ def queries(tier):
         add("mp/any/%s/%s/len%d" % (kind, framing, n), make_mp_any(n, kind, framing),
             "every byte string of length <= %d as the body of a multipart request (boundary b), handler reads request.%s, "
             "%s framing" % (n, kind, framing), 150 if not T else 600, ["status-4xx", "status-2xx"], "mp/any")
+
+    # ---- no hang: long header lines, long header blocks, long content types (step-counted regular expressions)
+    def show(units):
+        return ", ".join(repr(x)[1:] if isinstance(x, bytes) else repr(x) for x in units)
+
+    for keytag, shape, units, lengths, framing, whole, cpu in (HANG_THOROUGH + HANG_QUICK if T else HANG_QUICK):
+        front, start, key, kind = HANG_KEYS[keytag]
+        template, what = HANG_SHAPES[shape]
+        add("hang/field/%s/%s/%s/%s%s/n%s" % (keytag, shape, "+".join("%02x" * len(x) % tuple(x) for x in units), framing,
+                                             "-whole" if whole else "", "-".join(str(x) for x in lengths)),
+            make_hang_field(keytag, shape, units, lengths, framing, whole),
+            "multipart body (boundary b) with one part whose header line %r carries the parameter %r (S = %r, each '?' a "
+            "fully symbolic byte, all 256 values; P = the pump: one of the units {%s} repeated and cut to a run length "
+            "from {%s}, unit and length picked by the solver) - %s; line lengths up to %d characters; %s framing, %s; "
+            "max_memfile_size 2048; handler reads request.%s; every regular expression of the body path is interpreted "
+            "with a step count and must finish within 50*L*L+1000 steps on a text of L characters"
+            % ((front + [start])[-1] + b"...", template, key, show(units), ", ".join(str(x) for x in lengths), what,
+               len(start) + len(template) + len(key) + max(lengths), framing,
+               "the body arrives in one read" if whole else "the parameter arrives in a read of its own", kind),
+            max(90, 3 * cpu), ["answered"], "hang/field",
+            {"line": keytag, "shape": shape, "units": [x.decode("latin1") for x in units], "lengths": list(lengths),
+             "framing": framing, "whole": whole, "handler": kind})
+    for units, lengths, kind, cpu in (HANG_CTYPE_THOROUGH + HANG_CTYPE_QUICK if T else HANG_CTYPE_QUICK):
+        add("hang/ctype/%s/%s/n%s" % ("+".join("%02x" * len(x) % tuple(x.encode("latin1")) for x in units), kind,
+                                      "-".join(str(x) for x in lengths)),
+            make_hang_ctype(units, lengths, kind),
+            "Content-Type = 'multipart/' + P + c1 + 'boundary=' + c2 + P + c3 with c1..c3 free characters U+0001..U+00FF, "
+            "P = one of the units {%s} repeated and cut to a run length from {%s} (picked by the solver): values up to "
+            "%d characters; body = skeleton 'text'; handler reads request.%s; the boundary expression of BodyMixin._body "
+            "(and the others) must finish within 50*L*L+1000 steps" % (show(units), ", ".join(str(x) for x in lengths),
+                                                                     22 + 2 * max(lengths), kind),
+            max(90, 3 * cpu), ["answered"], "hang/ctype",
+            {"units": list(units), "lengths": list(lengths), "handler": kind})
+    for units, lengths, kind, framing, cpu in (HANG_BLOCK_THOROUGH + HANG_BLOCK_QUICK if T else HANG_BLOCK_QUICK):
+        add("hang/block/%s/%s/%s/n%s" % ("+".join("%02x" * len(x) % tuple(x) for x in units), kind, framing,
+                                         "-".join(str(x) for x in lengths)),
+            make_hang_block(units, lengths, kind, framing),
+            "multipart part whose header block is the name line + 'X: ' + P + two fully symbolic bytes + CRLF + data, P = "
+            "one of the units {%s} repeated and cut to a run length from {%s} (picked by the solver); the free bytes "
+            "arrive with 3 bytes of context in a read of their own; %s framing; handler reads request.%s; the header-block "
+            "scanner and the per-line parser must finish within 50*L*L+1000 steps"
+            % (show(units), ", ".join(str(x) for x in lengths), framing, kind),
+            max(90, 3 * cpu), ["answered"], "hang/block",
+            {"units": [x.decode("latin1") for x in units], "lengths": list(lengths), "handler": kind, "framing": framing})
 
     # ---- chunked stream of a JSON / urlencoded / opaque body cut at every offset, with and without chunk extensions
     for tag, ext in ([("json", CHUNK_EXT), ("form", CHUNK_EXT)] if not T else
